@@ -27,6 +27,8 @@ macro_rules! route_table {
             NestedRoute::new((seg("files"), WildcardSegment("rest")), ()),
             NestedRoute::new((ParamSegment("id"), seg("users")), ()),
             NestedRoute::new((StaticSegment("apple"), seg("lang")), ()),
+            NestedRoute::new((StaticSegment("apple"), OptionalParamSegment("a"), OptionalParamSegment("b"), seg("about")), ()),
+            NestedRoute::new((ParamSegment("id"), OptionalParamSegment("tab"), seg("lang")), ()),
         )
     }};
 }
